@@ -352,7 +352,8 @@ func (p *c15) gen(tier string, seed int64, idx int) *c15Case {
 			c.expectNS = ""
 		}
 		// known C04 findings are not valid test expressions here
-		if regexp.MustCompile(`\(\s*\)`).MatchString(c.exprText) && !valid || regexp.MustCompile(`[0-9.][eE][0-9]`).MatchString(c.exprText) || regexp.MustCompile(`(current|deref)\s*\([^)]*\)\s*\[`).MatchString(c.exprText) {
+		if regexp.MustCompile(`\(\s*\)`).MatchString(c.exprText) && !valid || regexp.MustCompile(`[0-9.][eE][0-9]`).MatchString(c.exprText) || regexp.MustCompile(`(current|deref)\s*\([^)]*\)\s*\[`).MatchString(c.exprText) ||
+			regexp.MustCompile(`[ \t\r\n]:[^:]|[^:]:[ \t\r\n]`).MatchString(c.exprText) || strings.ContainsRune(c.exprText, 0xF001) {
 			c.unasserted = true
 		}
 		return c
